@@ -238,3 +238,138 @@ Proof.
   intros st' rm. destruct (has_prefix _ _); [|discriminate]. destruct (copy_regular _); [discriminate|apply Hwm].
 Qed.
 
+
+(* ---------- the copier never panics ----------
+   (refuted by finding F17 until commit d81649d; the Extract panic of C10's finding F14 is excluded by
+   gm_extract_no_panic).  [walk_body] is the body of the nested fixpoint with its two recursive calls abstracted;
+   [walk_unfold] shows by computation that it is the same function. *)
+Section Body.
+  Variable cf : config.
+  Variable rec_d : wstate -> string -> string -> bool -> bool -> wres.                 (* same budget, depth - 1 *)
+  Variable rec_b : option (wstate -> string -> string -> bool -> bool -> wres).        (* budget - 1, full depth *)
+  Definition walk_body (st : wstate) (dest src : string) (via below : bool) : wres :=
+    let wm_static := fun st dest' mnt =>
+      match find_mount cf mnt with
+      | None => (st, SErr)
+      | Some rm =>
+          if under_secret cf mnt (String.length (fst rm)) then ok st
+          else if negb (m_exclude (snd rm)) && String.eqb (m_kind (snd rm)) "tmp"
+               then (st, SUnmodelled)
+               else walk_mount_static cf st dest' mnt rm
+      end in
+    if via then
+      match find_mount cf src with
+      | None => if under_secret cf src O then ok st else (st, SErr)
+      | Some rm =>
+          if under_secret cf src (String.length (fst rm)) then ok st
+          else
+            if negb (m_exclude (snd rm)) && String.eqb (m_kind (snd rm)) "tmp"
+            then rec_d st dest src false below
+            else bind (walk_mount_static cf st dest src rm)
+                      (fun st => if below then walk_mounts_below cf wm_static st dest src else ok st)
+      end
+    else
+      bind (if below then walk_mounts_below cf wm_static st dest src else ok st) (fun st =>
+        if negb (has_prefix_dir (c_ctr cf) src) then (st, SErr)
+        else
+          let suffix := drop (String.length (c_ctr cf)) src in
+          match host_lstat cf suffix with
+          | LErr => (st, SErr)
+          | LAbs => (set_flags st true false, SErr)
+          | LUnknown => (st, SUnmodelled)
+          | LNode pos (Link target) =>
+              match rec_b with
+              | None => (st, SErr)
+              | Some f =>
+                  let lexical := if is_abs target then path_clean target else fp_join [fp_dir src; target] in
+                  let st := set_flags st false (lexical_differs cf pos target lexical) in
+                  f st dest lexical true true
+              end
+          | LNode pos (Dir ents) =>
+              let st := if String.eqb dest "" then st else add_dirp st dest in
+              match sorted_names ents with
+              | [] => ok (if String.eqb dest "" then st else add_filep st (dest ++ "/.keep") "")
+              | names =>
+                  fold_left (fun r name =>
+                    bind r (fun st =>
+                      let dest' := dest ++ "/" ++ name in
+                      let src' := src ++ "/" ++ name in
+                      if existsb (String.eqb src') (c_secrets cf) then ok st
+                      else match assoc_get src' (c_mounts cf) with
+                           | Some m => if copy_regular m then rec_d st dest' src' false false else ok st
+                           | None => rec_d st dest' src' false false
+                           end)) names (ok st)
+              end
+          | LNode pos (File data) => ok (add_filep st dest data)
+          | LNode pos Special => (st, SErr)
+          end).
+
+  Hypothesis rec_d_np : forall st dest src via below, snd (rec_d st dest src via below) <> SPanic.
+  Hypothesis rec_b_np : forall f, rec_b = Some f -> forall st dest src via below, snd (f st dest src via below) <> SPanic.
+
+  Lemma wm_static_np st dest' mnt :
+    snd (match find_mount cf mnt with
+         | None => (st, SErr)
+         | Some rm =>
+             if under_secret cf mnt (String.length (fst rm)) then ok st
+             else if negb (m_exclude (snd rm)) && String.eqb (m_kind (snd rm)) "tmp"
+                  then (st, SUnmodelled)
+                  else walk_mount_static cf st dest' mnt rm
+         end) <> SPanic.
+  Proof.
+    destruct (find_mount cf mnt) as [rm|]; [|discriminate].
+    destruct (under_secret cf mnt _); [discriminate|].
+    destruct (negb _ && _); [discriminate|apply walk_mount_static_np].
+  Qed.
+
+  Lemma walk_body_np st dest src via below : snd (walk_body st dest src via below) <> SPanic.
+  Proof.
+    unfold walk_body. destruct via.
+    - destruct (find_mount cf src) as [rm|]; [|destruct (under_secret cf src 0); discriminate].
+      destruct (under_secret cf src _); [discriminate|].
+      destruct (negb _ && _); [apply rec_d_np|].
+      apply bind_np; [apply walk_mount_static_np|]. intros st'. destruct below; [|discriminate].
+      apply walk_mounts_below_np. intros. apply wm_static_np.
+    - apply bind_np.
+      + destruct below; [|discriminate]. apply walk_mounts_below_np. intros. apply wm_static_np.
+      + intros st'. destruct (negb (has_prefix_dir (c_ctr cf) src)); [discriminate|].
+        destruct (host_lstat cf _) as [pos n| | |]; try discriminate.
+        destruct n as [data|ents|target|]; try discriminate.
+        * destruct (sorted_names ents) as [|n0 names]; [discriminate|].
+          apply (fold_np (fun st name =>
+                   if existsb (String.eqb (src ++ "/" ++ name)) (c_secrets cf) then ok st
+                   else match assoc_get (src ++ "/" ++ name) (c_mounts cf) with
+                        | Some m => if copy_regular m then rec_d st (dest ++ "/" ++ name) (src ++ "/" ++ name) false false else ok st
+                        | None => rec_d st (dest ++ "/" ++ name) (src ++ "/" ++ name) false false
+                        end)); [|discriminate].
+          intros st2 name. destruct (existsb _ _); [discriminate|].
+          destruct (assoc_get _ _) as [m|]; [destruct (copy_regular m); [apply rec_d_np|discriminate]|apply rec_d_np].
+        * destruct rec_b as [f|] eqn:E; [|discriminate]. apply (rec_b_np f eq_refl).
+  Qed.
+End Body.
+
+Lemma walk_unfold cf b d st dest src via below :
+  walk cf b (S d) st dest src via below =
+  walk_body cf (walk cf b d) (match b with O => None | S b' => Some (walk cf b' (depth_fuel cf)) end) st dest src via below.
+Proof. destruct b; reflexivity. Qed.
+Lemma walk_0 cf b st dest src via below : walk cf b O st dest src via below = (st, SUnmodelled).
+Proof. destruct b; reflexivity. Qed.
+
+Theorem walk_no_panic : forall cf b depth st dest src via below, snd (walk cf b depth st dest src via below) <> SPanic.
+Proof.
+  intros cf. induction b as [|b IHb]; induction depth as [|d IHd]; intros st dest src via below.
+  - rewrite walk_0. discriminate.
+  - rewrite walk_unfold. apply walk_body_np; [exact IHd|]. intros f Hf. discriminate.
+  - rewrite walk_0. discriminate.
+  - rewrite walk_unfold. apply walk_body_np; [exact IHd|]. intros f Hf. injection Hf as <-. apply IHb.
+Qed.
+
+Theorem copy_no_panic : forall cf st, fst (copy_model cf st) <> RPanic.
+Proof.
+  intros cf st. unfold copy_model, walk_all.
+  pose proof (walk_no_panic cf 11 (depth_fuel cf) empty_state "" (c_ctr cf) true true) as H.
+  destruct (walk cf 11 (depth_fuel cf) empty_state "" (c_ctr cf) true true) as [w []]; cbn [fst snd] in *; try discriminate; [|congruence].
+  destruct (fs_load (w_manifest w)); [|discriminate].
+  destruct (fold_opt do_mkdir _ _); [|discriminate].
+  destruct (fold_opt (do_write st) _ _); discriminate.
+Qed.
